@@ -136,9 +136,15 @@ impl RawMemoryFreeList {
     }
 
     fn current_capacity(&self) -> i32 {
-        let list_blocks = conversions::bytes_to_pages_up(self.high_water - self.base) as i32
-            / self.pages_per_block;
-        self.units_in_first_block() + (list_blocks - 1) * self.units_per_block()
+        let list_pages = conversions::bytes_to_pages_up(self.high_water - self.base) as i32;
+        let list_blocks = list_pages / self.pages_per_block;
+        // The last block is cut short at `limit` when the table size is not a multiple of the block size.
+        let units_in_partial_block = (conversions::pages_to_bytes(
+            (list_pages % self.pages_per_block) as _,
+        ) >> LOG_BYTES_IN_UNIT) as i32;
+        self.units_in_first_block()
+            + (list_blocks - 1) * self.units_per_block()
+            + units_in_partial_block
     }
 
     pub fn grow_freelist(&mut self, units: i32) -> bool {
@@ -216,7 +222,7 @@ impl RawMemoryFreeList {
             "Attempt to grow FreeList beyond limit"
         );
         if self.high_water + grow_extent > self.limit {
-            grow_extent = self.high_water - self.limit;
+            grow_extent = self.limit - self.high_water;
         }
         self.mmap(self.high_water, grow_extent);
         self.high_water += grow_extent;
